@@ -249,9 +249,11 @@ theorem hasAttributeInNamespace_self {env : Env} {N a : Nat} {x : Tree}
 
 /-! ### The three invariants -/
 
-/-- The nearest binding of every prefix in the kept stack is in the frame. -/
+/-- The nearest binding of every prefix in the kept stack is in the frame (bindings to the
+    no-namespace id excepted: they are never the reason of a removal, and the frames of
+    `namespaces_in_scope` do not list `xmlns=""`). -/
 def KW (K : List (List (Nat × Nat))) (W' : List (Nat × Nat)) : Prop :=
-  ∀ q n, scopeOf K q = some n → (q, n) ∈ W'
+  ∀ q n, n ≠ Env.noNamespace → scopeOf K q = some n → (q, n) ∈ W'
 
 /-- Every binding of `W` is in `W'` or is made up for by a binding of the same namespace that the
     subtree of `x` can use. -/
@@ -264,7 +266,19 @@ def DdInv3 (W W' : List (Nat × Nat)) : Prop :=
   ∀ n, (Env.emptyPrefix, n) ∈ W' → n ≠ Env.noNamespace →
     ∃ m, m ≠ Env.noNamespace ∧ (Env.emptyPrefix, m) ∈ W
 
-theorem KW.nil (W' : List (Nat × Nat)) : KW [] W' := fun _ _ h => by simp [scopeOf] at h
+/-- `W₁` is the frame `W` with the declarations `d` on top: the pairs of `d`, and the pairs of `W`
+    whose prefix `d` does not declare.  `strict`: without the undeclaration `xmlns=""` (the frames
+    `namespaces_in_scope` yields; the serialiser's `push` keeps the pair: `strict = false`). -/
+def IsPush (strict : Bool) (W d W₁ : List (Nat × Nat)) : Prop :=
+  ∀ p n, (p, n) ∈ W₁ ↔ (strict = true → ¬ (p = Env.emptyPrefix ∧ n = Env.noNamespace)) ∧
+    ((p, n) ∈ d ∨ (p ∉ d.map Prod.fst ∧ (p, n) ∈ W))
+
+theorem IsPush.pushTop (W d : List (Nat × Nat)) : IsPush false W d (pushTop W d) := by
+  intro p n
+  rw [ddMem_pushTop]
+  simp
+
+theorem KW.nil (W' : List (Nat × Nat)) : KW [] W' := fun _ _ _ h => by simp [scopeOf] at h
 
 theorem DdInv.refl (env : Env) (x : Tree) (W : List (Nat × Nat)) : DdInv env x W W :=
   fun _ _ h => .inl h
@@ -279,10 +293,11 @@ theorem DdInv.kid {env : Env} {v : Value} {ks : List Tree} {W W' : List (Nat × 
   · refine .inr ⟨q, hq, isPrefixRebound_kid hk hr, fun hc => ha ⟨hc.1, ?_⟩⟩
     exact hasAttributeInNamespace_kid hk hc.2
 
-theorem KW.push {K : List (List (Nat × Nat))} {W' : List (Nat × Nat)} (h : KW K W')
-    (d' : List (Nat × Nat)) : KW (d' :: K) (pushTop W' d') := by
-  intro q n hq
-  rw [ddMem_pushTop]
+theorem KW.push {K : List (List (Nat × Nat))} {W' W₁' : List (Nat × Nat)} (h : KW K W')
+    {s : Bool} {d' : List (Nat × Nat)} (hp : IsPush s W' d' W₁') : KW (d' :: K) W₁' := by
+  intro q n hn0 hq
+  rw [hp]
+  refine ⟨fun _ hc => hn0 hc.2, ?_⟩
   simp only [scopeOf] at hq
   cases hl : d'.lookup q with
   | some m =>
@@ -291,7 +306,7 @@ theorem KW.push {K : List (List (Nat × Nat))} {W' : List (Nat × Nat)} (h : KW 
     exact .inl (ddMem_of_lookup_eq_some hl)
   | none =>
     simp only [hl] at hq
-    refine .inr ⟨fun hm => ?_, h q n hq⟩
+    refine .inr ⟨fun hm => ?_, h q n hn0 hq⟩
     have := (lookup_isSome_iff_mem_keys d' q).2 hm
     rw [hl] at this; cases this
 
@@ -303,10 +318,12 @@ theorem not_mem_keys_dpKeep {env : Env} {K : List (List (Nat × Nat))} {x : Tree
   fun hm => h (((dpKeep_sublist env K x).map Prod.fst).subset hm)
 
 /-- A usable binding `(q, N)` of the frame after survives the push of the kept declarations. -/
-theorem witness_push {env : Env} {x : Tree} {K : List (List (Nat × Nat))} {W' : List (Nat × Nat)}
-    {q N : Nat} (hn : x.value.isNormal = true) (hq : (q, N) ∈ W')
-    (hr : isPrefixRebound q N x = false) : (q, N) ∈ pushTop W' (dpKeep env K x) := by
-  rw [ddMem_pushTop]
+theorem witness_push {env : Env} {x : Tree} {K : List (List (Nat × Nat))} {W' W₁' : List (Nat × Nat)}
+    {s : Bool} {q N : Nat} (hn : x.value.isNormal = true) (hp : IsPush s W' (dpKeep env K x) W₁')
+    (hq : (q, N) ∈ W') (hnu : s = true → ¬ (q = Env.emptyPrefix ∧ N = Env.noNamespace))
+    (hr : isPrefixRebound q N x = false) : (q, N) ∈ W₁' := by
+  rw [hp]
+  refine ⟨hnu, ?_⟩
   by_cases hk : q ∈ (dpKeep env K x).map Prod.fst
   · obtain ⟨⟨q', n'⟩, hkv, rfl⟩ := List.mem_map.1 hk
     have hm : (q', n') ∈ x.nsDecls := (dpKeep_sublist env K x).subset hkv
@@ -315,39 +332,42 @@ theorem witness_push {env : Env} {x : Tree} {K : List (List (Nat × Nat))} {W' :
     exact .inl hkv
   · exact .inr ⟨hk, hq⟩
 
-theorem DdInv.push {env : Env} {x : Tree} {K : List (List (Nat × Nat))} {W W' : List (Nat × Nat)}
-    (hn : x.value.isNormal = true) (hnd : (x.nsDecls.map Prod.fst).Nodup) (hK : KW K W')
-    (h : DdInv env x W W') : DdInv env x (pushTop W x.nsDecls) (pushTop W' (dpKeep env K x)) := by
-  intro p N hp
-  rw [ddMem_pushTop] at hp
-  rcases hp with hp | ⟨hpk, hp⟩
+theorem DdInv.push {env : Env} {x : Tree} {K : List (List (Nat × Nat))} {W W' W₁ W₁' : List (Nat × Nat)}
+    {s : Bool} (hn : x.value.isNormal = true) (hnd : (x.nsDecls.map Prod.fst).Nodup) (hK : KW K W')
+    (h : DdInv env x W W') (hp : IsPush s W x.nsDecls W₁) (hp' : IsPush s W' (dpKeep env K x) W₁')
+    (hnu' : s = true → ∀ p n, (p, n) ∈ W' → ¬ (p = Env.emptyPrefix ∧ n = Env.noNamespace)) :
+    DdInv env x W₁ W₁' := by
+  intro p N hpm
+  obtain ⟨hstrict, hpm⟩ := (hp p N).1 hpm
+  rcases hpm with hpm | ⟨hpk, hpm⟩
   · -- declared on `x` itself
     by_cases hred : isRedundantDeclaration env x K (p, N) = true
-    · obtain ⟨_, q, hq, hw⟩ := isRedundantDeclaration_spec env x K p N hred
-      have hqW := hK q N hq
+    · obtain ⟨hN0, q, hq, hw⟩ := isRedundantDeclaration_spec env x K p N hred
+      have hqW := hK q N hN0 hq
       rcases hw with rfl | ⟨hr, ha⟩
       · -- the same prefix is bound to `N` above: it still is
-        refine .inl ((ddMem_pushTop _ _ _ _).2 (.inr ⟨fun hm => ?_, hqW⟩))
+        refine .inl ((hp' _ _).2 ⟨hstrict, .inr ⟨fun hm => ?_, hqW⟩⟩)
         obtain ⟨⟨q', n'⟩, hkv, rfl⟩ := List.mem_map.1 hm
         have hm' : (q', n') ∈ x.nsDecls := (dpKeep_sublist env K x).subset hkv
-        have := eq_of_mem_of_key_eq hnd hm' hp rfl
+        have := eq_of_mem_of_key_eq hnd hm' hpm rfl
         rw [this] at hkv
         simp only [dpKeep, List.mem_filter, hred, Bool.not_true, Bool.false_eq_true, and_false] at hkv
-      · exact .inr ⟨q, witness_push hn hqW hr, hr, ha⟩
-    · refine .inl ((ddMem_pushTop _ _ _ _).2 (.inl ?_))
+      · exact .inr ⟨q, witness_push hn hp' hqW (fun hs => hnu' hs q N hqW) hr, hr, ha⟩
+    · refine .inl ((hp' _ _).2 ⟨hstrict, .inl ?_⟩)
       simp only [dpKeep, List.mem_filter]
-      exact ⟨hp, by simpa using hred⟩
+      exact ⟨hpm, by simpa using hred⟩
   · -- inherited
-    rcases h p N hp with h1 | ⟨q, hq, hr, ha⟩
-    · exact .inl ((ddMem_pushTop _ _ _ _).2 (.inr ⟨not_mem_keys_dpKeep hpk, h1⟩))
-    · exact .inr ⟨q, witness_push hn hq hr, hr, ha⟩
+    rcases h p N hpm with h1 | ⟨q, hq, hr, ha⟩
+    · exact .inl ((hp' _ _).2 ⟨hstrict, .inr ⟨not_mem_keys_dpKeep hpk, h1⟩⟩)
+    · exact .inr ⟨q, witness_push hn hp' hq (fun hs => hnu' hs q N hq) hr, hr, ha⟩
 
-theorem DdInv3.push {env : Env} {x : Tree} {K : List (List (Nat × Nat))} {W W' : List (Nat × Nat)}
-    (h : DdInv3 W W') : DdInv3 (pushTop W x.nsDecls) (pushTop W' (dpKeep env K x)) := by
+theorem DdInv3.push {env : Env} {x : Tree} {K : List (List (Nat × Nat))} {W W' W₁ W₁' : List (Nat × Nat)}
+    {s : Bool} (h : DdInv3 W W') (hp : IsPush s W x.nsDecls W₁)
+    (hp' : IsPush s W' (dpKeep env K x) W₁') : DdInv3 W₁ W₁' := by
   intro n hn hn0
-  rw [ddMem_pushTop] at hn
+  obtain ⟨_, hn⟩ := (hp' _ _).1 hn
   rcases hn with hn | ⟨hk, hn⟩
-  · exact ⟨n, hn0, (ddMem_pushTop _ _ _ _).2 (.inl ((dpKeep_sublist env K x).subset hn))⟩
+  · exact ⟨n, hn0, (hp _ _).2 ⟨fun _ hc => hn0 hc.2, .inl ((dpKeep_sublist env K x).subset hn)⟩⟩
   · obtain ⟨m, hm0, hm⟩ := h n hn hn0
     by_cases hd : Env.emptyPrefix ∈ x.nsDecls.map Prod.fst
     · -- the element declares the empty prefix but does not keep the declaration: it was removed,
@@ -355,11 +375,14 @@ theorem DdInv3.push {env : Env} {x : Tree} {K : List (List (Nat × Nat))} {W W' 
       obtain ⟨⟨e, m'⟩, hkv, he⟩ := List.mem_map.1 hd
       simp only at he
       subst he
-      refine ⟨m', fun h0 => hk ?_, (ddMem_pushTop _ _ _ _).2 (.inl hkv)⟩
-      refine List.mem_map.2 ⟨(Env.emptyPrefix, m'), ?_, rfl⟩
-      simp only [dpKeep, List.mem_filter]
-      exact ⟨hkv, by rw [isRedundantDeclaration_undecl env x K _ h0]; rfl⟩
-    · exact ⟨m, hm0, (ddMem_pushTop _ _ _ _).2 (.inr ⟨hd, hm⟩)⟩
+      have hm'0 : m' ≠ Env.noNamespace := by
+        intro h0
+        apply hk
+        refine List.mem_map.2 ⟨(Env.emptyPrefix, m'), ?_, rfl⟩
+        simp only [dpKeep, List.mem_filter]
+        exact ⟨hkv, by rw [isRedundantDeclaration_undecl env x K _ h0]; rfl⟩
+      exact ⟨m', hm'0, (hp _ _).2 ⟨fun _ hc => hm'0 hc.2, .inl hkv⟩⟩
+    · exact ⟨m, hm0, (hp _ _).2 ⟨fun _ hc => hm0 hc.2, .inr ⟨hd, hm⟩⟩⟩
 
 /-! ### The name checks of one element -/
 
@@ -524,9 +547,12 @@ theorem keep_wr (env : Env) : ∀ (x : Tree) (K : List (List (Nat × Nat))) (W W
     by_cases he : v.isElement = true
     · obtain ⟨name, rfl⟩ := (isElement_iff_ex v).1 he
       have hnd := hu.self (t := .node (.element name) ks) rfl
-      have hI₁ := DdInv.push (K := K) (x := .node (.element name) ks) rfl hnd hK hI
-      have h3₁ := DdInv3.push (env := env) (x := .node (.element name) ks) (K := K) h3
-      have hK₁ := hK.push (dpKeep env K (.node (.element name) ks))
+      have hp := IsPush.pushTop W (Tree.node (.element name) ks).nsDecls
+      have hp' := IsPush.pushTop W' (dpKeep env K (.node (.element name) ks))
+      have hI₁ := DdInv.push (K := K) (x := .node (.element name) ks) rfl hnd hK hI hp hp'
+        (fun hs => by cases hs)
+      have h3₁ := DdInv3.push h3 hp hp'
+      have hK₁ := hK.push hp' 
       rw [wr_element, Bool.and_eq_true] at hw
       have hb := keep_body env name ks K _ _ hI₁ h3₁
         (fun hwk => keep_wr_list env ks _ _ _ hukids hK₁ (fun k hk => hI₁.kid hk) h3₁ hwk) hw.1 hw.2
